@@ -1,6 +1,6 @@
 SPECIFICATION Spec
 CONSTANTS
-  GenFiles = {1, 3, 4}
+  GenFiles = {1, 2, 3, 4}
   OtherFiles = {}
   Modes = {292, 420}
   Variants = {0, 2}
